@@ -1018,6 +1018,14 @@ class ExprMixin(object):
                 if isinstance(x, Term):
                     deps |= deps_of(x)
             return Opaque("identity:%s" % short(node, 40), deps)
+        if isinstance(a, Const) and isinstance(b, Const) and isinstance(a.v, (list, dict)) and isinstance(b.v, (list, dict)):
+            # two references to module-level tables: one object exactly when they come from one
+            # definition (the evaluated table remembers the node that defines it)
+            na, nb = getattr(a.v, "node", None), getattr(b.v, "node", None)
+            if a.v is b.v or (na is not None and na is nb):
+                return TRUE
+            if na is not None and nb is not None:
+                return FALSE
         raise AnalysisError("E5.cmp", "identity test on %r / %r" % (a, b), node, module)
 
     def is_none(self, st, v):
